@@ -1,5 +1,6 @@
 import DimodProofs.EqualityViews
 import DimodProofs.EqualityCqm
+import DimodProofs.EqualityCqmFields
 
 /-! # C18 — model equality is total, symmetric and sensitive to every coefficient
 
@@ -342,5 +343,219 @@ example : isAlmostEqualWith false true true true 7
 example : isEqual (.model { kind := .bqm .spin, vars := [], lin := [], quad := [], off := 1, types := [] })
     (.model { kind := .bqm .binary, vars := [], lin := [], quad := [], off := 1, types := [] }) = .ok true := by
   decide +kernel
+
+/-! ## round 7: order independence and exact per-field sensitivity of the CQM comparison -/
+
+/-- **Constraint order and variable order do not matter**: a CQM equals (and almost-equals, at every number of places) the
+    same CQM with its constraints listed in any other order and its variable table in any other order. -/
+theorem isEqual_cqm_order_independent (p : Nat) (a : CqmVal) (ha : CqmWFv a) (cons' : List CCons) (vars' : List (Label × VT4))
+    (hc : a.cons.Perm cons') (hv : a.vars.Perm vars') :
+    isEqual (.cqm a) (.cqm { a with cons := cons', vars := vars' }) = .ok true
+    ∧ isEqual (.cqm { a with cons := cons', vars := vars' }) (.cqm a) = .ok true
+    ∧ isAlmostEqual (p : Int) (.cqm a) (.cqm { a with cons := cons', vars := vars' }) = .ok true := by
+  have hb : CqmWFv { a with cons := cons', vars := vars' } :=
+    ⟨ha.obj, fun d hd => ha.cons d (hc.mem_iff.mpr hd), ((hc.map (·.label)).nodup_iff).mp ha.labels,
+     ((hv.map Prod.fst).nodup_iff).mp ha.vars⟩
+  have hcan : CqmCanonEq a { a with cons := cons', vars := vars' } := by
+    refine ⟨CanonEq.rfl' _, fun v => lookup_perm hv ha.vars v, fun l => ?_⟩
+    show match findCons a.cons l, findCons cons' l with
+      | some c, some d => c.sense = d.sense ∧ c.rhs = d.rhs ∧ CanonEq c.lhs d.lhs
+      | none, none => True
+      | _, _ => False
+    rw [← findCons_perm hc ha.labels l]
+    exact (cqmCanonEq_refl a).cons l
+  have h1 := (isEqual_iff_canon_cqm a _ ha hb).mpr hcan
+  refine ⟨h1, ?_, ?_⟩
+  · have := (symmetric_all_pairs 0 a.obj a.obj a _ ha.obj ha.obj ha hb).2.2.1
+    rw [← this]; exact h1
+  · apply (almostEqual_iff_cqm p a _ ha hb).mpr
+    refine ⟨almostCanon_refl p _ ha.obj, fun v => lookup_perm hv ha.vars v, fun l => ?_⟩
+    show match findCons a.cons l, findCons cons' l with
+      | some c, some d => c.sense = d.sense ∧ roundsToZero (p : Int) (c.rhs - d.rhs) = true ∧ AlmostCanon p c.lhs d.lhs
+      | none, none => True
+      | _, _ => False
+    rw [← findCons_perm hc ha.labels l]
+    exact (cqmAlmostCanon_refl p a ha).cons l
+
+/-- **Every field of every constraint, exactly.**  Replace the constraint stored under label `l` by `c'` (same label): the
+    models are equal iff sense, right-hand side and left-hand side (canonically: labels, types, offset, every linear and every
+    quadratic bias) are all unchanged — so a change of exactly one of them, in any constraint, wherever it stands in the order,
+    gives `False`, in both argument orders. -/
+theorem isEqual_cqm_constraint_field (a : CqmVal) (ha : CqmWFv a) (l : Label) (c c' : CCons) (hf : findCons a.cons l = some c)
+    (hl : c'.label = l) (hw : WF c'.lhs) :
+    (isEqual (.cqm a) (.cqm { a with cons := replaceCons a.cons l c' }) = .ok true
+        ↔ c.sense = c'.sense ∧ c.rhs = c'.rhs ∧ CanonEq c.lhs c'.lhs)
+    ∧ ((c.sense ≠ c'.sense ∨ c.rhs ≠ c'.rhs ∨ ¬ CanonEq c.lhs c'.lhs) →
+        isEqual (.cqm a) (.cqm { a with cons := replaceCons a.cons l c' }) = .ok false
+        ∧ isEqual (.cqm { a with cons := replaceCons a.cons l c' }) (.cqm a) = .ok false) := by
+  have hb : CqmWFv { a with cons := replaceCons a.cons l c' } := by
+    refine ⟨ha.obj, fun d hd => ?_, by show ((replaceCons a.cons l c').map (·.label)).Nodup; rw [replaceCons_labels _ _ _ hl]; exact ha.labels, ha.vars⟩
+    obtain ⟨d0, hd0, rfl⟩ := List.mem_map.mp hd
+    split
+    · exact hw
+    · exact ha.cons d0 hd0
+  have hfb : findCons (replaceCons a.cons l c') l = some c' := findCons_replace_same a.cons l c c' hl hf
+  have hiff : isEqual (.cqm a) (.cqm { a with cons := replaceCons a.cons l c' }) = .ok true
+      ↔ c.sense = c'.sense ∧ c.rhs = c'.rhs ∧ CanonEq c.lhs c'.lhs := by
+    rw [isEqual_iff_canon_cqm a _ ha hb]
+    constructor
+    · intro h
+      have := h.cons l
+      simp only [] at this
+      rw [hf, hfb] at this
+      exact this
+    · intro h
+      refine ⟨CanonEq.rfl' _, fun _ => rfl, fun k => ?_⟩
+      show match findCons a.cons k, findCons (replaceCons a.cons l c') k with
+        | some c, some d => c.sense = d.sense ∧ c.rhs = d.rhs ∧ CanonEq c.lhs d.lhs
+        | none, none => True
+        | _, _ => False
+      by_cases hk : k = l
+      · subst hk; rw [hf, hfb]; exact h
+      · rw [findCons_replace_other a.cons l k c' hl hk]
+        exact (cqmCanonEq_refl a).cons k
+  refine ⟨hiff, fun hne => ?_⟩
+  have hfalse : isEqual (.cqm a) (.cqm { a with cons := replaceCons a.cons l c' }) = .ok false :=
+    isEqual_sensitive_cqm a _ ha hb (Or.inr (Or.inr (Or.inr ⟨l, c, c', hf, hfb, hne⟩)))
+  refine ⟨hfalse, ?_⟩
+  have := (symmetric_all_pairs 0 a.obj a.obj a _ ha.obj ha.obj ha hb).2.2.1
+  rw [← this]; exact hfalse
+
+/-- the same for the objective, the variable table and the set of constraints: a CQM with another objective is equal iff the
+    objectives are canonically equal; dropping a constraint, adding one under a new label, adding a variable (used or not) or
+    giving one variable another type always gives `False`. -/
+theorem isEqual_cqm_other_fields (a : CqmVal) (ha : CqmWFv a) :
+    (∀ o', WF o' → (isEqual (.cqm a) (.cqm { a with obj := o' }) = .ok true ↔ CanonEq a.obj o'))
+    ∧ (∀ l c, findCons a.cons l = some c →
+        isEqual (.cqm a) (.cqm { a with cons := a.cons.filter (fun d => !decide (d.label = l)) }) = .ok false)
+    ∧ (∀ c', findCons a.cons c'.label = none → WF c'.lhs →
+        isEqual (.cqm a) (.cqm { a with cons := a.cons ++ [c'] }) = .ok false)
+    ∧ (∀ v t, QModel.lookup a.vars v = none → isEqual (.cqm a) (.cqm { a with vars := a.vars ++ [(v, t)] }) = .ok false)
+    ∧ (∀ v t t', QModel.lookup a.vars v = some t → t' ≠ t →
+        isEqual (.cqm a) (.cqm { a with vars := a.vars.map (fun p => if p.1 = v then (v, t') else p) }) = .ok false) := by
+  refine ⟨fun o' ho' => ?_, fun l c hf => ?_, fun c' hf hw => ?_, fun v t hv => ?_, fun v t t' hv hne => ?_⟩
+  · have hb : CqmWFv { a with obj := o' } := ⟨ho', ha.cons, ha.labels, ha.vars⟩
+    rw [isEqual_iff_canon_cqm a _ ha hb]
+    constructor
+    · intro h; exact h.obj
+    · intro h
+      exact ⟨h, fun _ => rfl, (cqmCanonEq_refl a).cons⟩
+  · have hb : CqmWFv { a with cons := a.cons.filter (fun d => !decide (d.label = l)) } :=
+      ⟨ha.obj, fun d hd => ha.cons d (List.mem_filter.mp hd).1,
+       (ha.labels.sublist ((List.filter_sublist).map _)), ha.vars⟩
+    apply isEqual_sensitive_cqm a _ ha hb
+    refine Or.inr (Or.inr (Or.inl ⟨l, ?_⟩))
+    rw [hf]
+    have : findCons (a.cons.filter (fun d => !decide (d.label = l))) l = none := by
+      unfold findCons
+      rw [List.find?_eq_none]
+      intro d hd
+      have := (List.mem_filter.mp hd).2
+      simpa using this
+    show (some c).isSome ≠ (findCons (a.cons.filter (fun d => !decide (d.label = l))) l).isSome
+    rw [this]; simp
+  · have hnot : c'.label ∉ a.cons.map (·.label) := by
+      intro hm
+      obtain ⟨d, hd, hdl⟩ := List.mem_map.mp hm
+      unfold findCons at hf
+      rw [List.find?_eq_none] at hf
+      exact absurd (by simpa using hdl) (hf d hd)
+    have hb : CqmWFv { a with cons := a.cons ++ [c'] } := by
+      refine ⟨ha.obj, fun d hd => ?_, ?_, ha.vars⟩
+      · rcases List.mem_append.mp hd with h | h
+        · exact ha.cons d h
+        · rw [List.mem_singleton.mp h]; exact hw
+      · show ((a.cons ++ [c']).map (·.label)).Nodup
+        rw [List.map_append, List.nodup_append]
+        refine ⟨ha.labels, by simp, ?_⟩
+        intro x hx y hy
+        simp only [List.map_cons, List.map_nil, List.mem_singleton] at hy
+        rw [hy]; exact fun e => hnot (e ▸ hx)
+    apply isEqual_sensitive_cqm a _ ha hb
+    refine Or.inr (Or.inr (Or.inl ⟨c'.label, ?_⟩))
+    have : findCons (a.cons ++ [c']) c'.label = some c' := by
+      unfold findCons at hf ⊢
+      rw [List.find?_append, hf]
+      simp
+    show (findCons a.cons c'.label).isSome ≠ (findCons (a.cons ++ [c']) c'.label).isSome
+    rw [hf, this]; simp
+  · have hnot : v ∉ a.vars.map Prod.fst := by
+      intro hm
+      rw [Eqm.lookup_eq_find?] at hv
+      obtain ⟨p, hp, hpv⟩ := List.mem_map.mp hm
+      have : a.vars.find? (fun p => decide (p.1 = v)) = none := by
+        cases hfd : a.vars.find? (fun p => decide (p.1 = v)) with
+        | none => rfl
+        | some q => rw [hfd] at hv; simp at hv
+      rw [List.find?_eq_none] at this
+      exact absurd (by simpa using hpv) (this p hp)
+    have hb : CqmWFv { a with vars := a.vars ++ [(v, t)] } := by
+      refine ⟨ha.obj, ha.cons, ha.labels, ?_⟩
+      show ((a.vars ++ [(v, t)]).map Prod.fst).Nodup
+      rw [List.map_append, List.nodup_append]
+      refine ⟨ha.vars, by simp, ?_⟩
+      intro x hx y hy
+      simp only [List.map_cons, List.map_nil, List.mem_singleton] at hy
+      rw [hy]; exact fun e => hnot (e ▸ hx)
+    apply isEqual_sensitive_cqm a _ ha hb
+    refine Or.inl ⟨v, ?_⟩
+    show QModel.lookup a.vars v ≠ QModel.lookup (a.vars ++ [(v, t)]) v
+    rw [hv, lookup_eq_find?, List.find?_append]
+    have : a.vars.find? (fun p => decide (p.1 = v)) = none := by
+      rw [Eqm.lookup_eq_find?] at hv
+      cases hfd : a.vars.find? (fun p => decide (p.1 = v)) with
+      | none => rfl
+      | some q => rw [hfd] at hv; simp at hv
+    rw [this]; simp
+  · have hkeys : (a.vars.map (fun p => if p.1 = v then (v, t') else p)).map Prod.fst = a.vars.map Prod.fst := by
+      rw [List.map_map]
+      apply List.map_congr_left
+      intro p _
+      by_cases h : p.1 = v <;> simp [Function.comp, h]
+    have hb : CqmWFv { a with vars := a.vars.map (fun p => if p.1 = v then (v, t') else p) } :=
+      ⟨ha.obj, ha.cons, ha.labels, by show ((a.vars.map _).map Prod.fst).Nodup; rw [hkeys]; exact ha.vars⟩
+    apply isEqual_sensitive_cqm a _ ha hb
+    refine Or.inl ⟨v, ?_⟩
+    show QModel.lookup a.vars v ≠ QModel.lookup (a.vars.map (fun p => if p.1 = v then (v, t') else p)) v
+    rw [hv]
+    have : QModel.lookup (a.vars.map (fun p => if p.1 = v then (v, t') else p)) v = some t' := lookup_retype t' v a.vars t hv
+    rw [this]
+    exact fun e => hne (Option.some.inj e).symm
+
+/-- **The comparison IS what the source's conjunct list says** (tie to the code: `Generated/EqFields.lean` is rewritten on every
+    run by `harness/translators/c18_cqm_fields.py` from the `return (… and …)` chains of `ConstrainedQuadraticModel.is_equal` /
+    `is_almost_equal` and of their nested `constraint_eq`).  Interpreting those lists conjunct by conjunct, left to right with
+    short-circuit `and` (`Eqm.cqmCmpBy`: objective, variable set, per-variable types, constraint labels, then per constraint
+    sense, lhs, rhs), gives exactly the modelled comparison `cqmCmp` — hence `is_equal` and `is_almost_equal` of the model, to
+    which every theorem of this file applies; both methods start with the `isinstance` guard.  Dropping, adding or reordering a
+    conjunct in the source changes the generated lists and breaks this theorem. -/
+theorem generated_comparison_is_the_model (p : Int) (a b : CqmVal) :
+    Generated.EqFields.isEqualGuard = true ∧ Generated.EqFields.almostGuard = true
+    ∧ isEqual (.cqm a) (.cqm b)
+        = cqmCmpBy Generated.EqFields.isEqualTop Generated.EqFields.isEqualCons
+            (fun x y => modelIsEqualWith true x (.model y)) (fun x y => decide (x = y)) a b
+    ∧ isAlmostEqual p (.cqm a) (.cqm b)
+        = cqmCmpBy Generated.EqFields.almostTop Generated.EqFields.almostCons
+            (fun x y => modelAlmostWith true true p x (.model y)) (fun x y => roundsToZero p (x - y)) a b := by
+  refine ⟨rfl, rfl, ?_, ?_⟩
+  · show cqmIsEqualWith true true true a (.cqm b) = _
+    rw [cqmIsEqual_eq_cmp]
+    exact (cqmCmpBy_eq "rhs exact" (Or.inl rfl) _ _ a b).symm
+  · show cqmAlmostWith true true true true p a (.cqm b) = _
+    rw [cqmAlmost_eq_cmp]
+    exact (cqmCmpBy_eq "rhs rounded" (Or.inr rfl) _ _ a b).symm
+
+/-- **Scope of the comparison (recorded, not part of the property's list).**  `is_equal` / `is_almost_equal` read of a CQM only
+    `CqmFull.observed`: two CQMs that differ ONLY in a soft weight, a penalty type, a discrete mark or a variable bound have the
+    same observed value, so every comparison involving one gives the answer it gives for the other. -/
+theorem isEqual_scope_recorded (p : Int) (a b : CqmFull) (x : Obj) (h : a.observed = b.observed) :
+    isEqual (.cqm a.observed) x = isEqual (.cqm b.observed) x
+    ∧ isEqual x (.cqm a.observed) = isEqual x (.cqm b.observed)
+    ∧ isAlmostEqual p (.cqm a.observed) x = isAlmostEqual p (.cqm b.observed) x := by
+  rw [h]; exact ⟨rfl, rfl, rfl⟩
+
+/-- two CQMs differing only in a weight and a bound are observed alike -/
+example : (⟨[(.str "i", .integer, 0, 5)], qa, [⟨⟨.str "c", .le, 1, qa⟩, some 2, false, false⟩]⟩ : CqmFull).observed
+    = (⟨[(.str "i", .integer, 0, 9)], qa, [⟨⟨.str "c", .le, 1, qa⟩, none, false, false⟩]⟩ : CqmFull).observed := rfl
 
 end C18
